@@ -69,6 +69,12 @@ def gen_tasks(tier, seed):
         if len(es) >= 2:
             c = [list(e) for e in rng.sample(es, 2)]
             tasks.append({**base, "constraints": [c]})
+    # graphs without a source or sink of their own: walks can only start / end at the declared additional nodes
+    for name, es, st, en in (("pure_2cycle", [("a", "b"), ("b", "a")], ["a"], ["b"]), ("pure_2cycle_same", [("a", "b"), ("b", "a")], ["a"], ["a"]),
+                             ("pure_3cycle", [("a", "b"), ("b", "c"), ("c", "a")], ["a"], ["c"]), ("cycle_with_tail_in", [("s", "a"), ("a", "b"), ("b", "a")], [], ["b"]),
+                             ("cycle_with_tail_out", [("a", "b"), ("b", "a"), ("b", "t")], ["a"], [])):
+        tasks.append({"name": name, "edges": es, "cyc": True, "starts": st, "ends": en, "ignored": [], "constraints": [], "node_mode": False})
+        tasks.append({"name": name, "edges": es, "cyc": True, "starts": st, "ends": en, "ignored": [], "constraints": [], "node_mode": True})
     # a bottleneck edge that a single covering walk must cross more often than the graph has nodes:
     # s->a->b->t, b->c_i, every c_i->d_j, d_j->a  (p*q+1 crossings of (a,b), p+q+4 nodes, +2 synthetic) -- exercises the per-walk repetition bound
     for p, q in ([(2, 2), (3, 5)] if tier == "quick" else [(2, 2), (2, 3), (3, 3), (3, 4), (3, 5), (4, 4), (4, 5)]):
@@ -309,6 +315,11 @@ def run_task(task):
     except Exception as e:
         res["extra"]["wrapper_raised"] = res["extra"].get("wrapper_raised", 0) + 1
         res["extra"]["raised_kinds"] = res["extra"].get("raised_kinds", []) + [f"{mn}:{type(e).__name__}"]
+        if k_ref and k_ref >= 1:
+            # a cover with k_ref routes exists (certified by the spec): the wrapper must solve, not raise
+            res["obligations"] += 1
+            res["violations"].append({"signature": f"{mn}:raises-{type(e).__name__}-although-cover-exists", "summary": f"{task['name']}: {type(e).__name__}: {str(e)[:140]} (a cover with {k_ref} routes exists: {wit})",
+                                      "replay": {"kind": "wrapper_raises", "task": mt, "wtask": task}})
         return res
     statuses = [lp.honest_status for lp in sess.snaps]
     got = len(m.get_solution()[key]) if ok else None
@@ -344,7 +355,20 @@ def run_task(task):
     return res
 
 
+def _replay_wrapper_raises(data):
+    try:
+        m, _ = models.construct(data["task"])
+        m.get_lowerbound_k()
+        m.solve()
+    except Exception as e:
+        print(f"  replay: {data['task']['cls']} raised {type(e).__name__}: {str(e)[:160]}")
+        return True
+    return False
+
+
 def replay(data):
+    if data.get("kind") == "wrapper_raises":
+        return _replay_wrapper_raises(data)
     wtask = data.get("wtask", data["task"])
     G = nx.DiGraph()
     G.add_edges_from([tuple(e) for e in wtask["edges"]])
